@@ -169,6 +169,12 @@ def gen_spec(rng):
             rc = rc[:1]
         payload, kind = gen_message(rng)
         cuts, cmode = gen_cuts(rng, len(payload), payload)
+        if rng.random() < 0.08:
+            # a command that is refused in the middle of the transaction (RFC 5321 4.1.4: a refused command does not
+            # change the state); whatever the server makes of it, a message acknowledged later must carry the
+            # envelope of the commands it accepted
+            rc = rc[:1] + [rng.choice([b'HELO  ', b'EHLO a b', b'HELO two words'])] + rc[1:] if rng.random() < 0.5 else \
+                [rng.choice([b'HELO  ', b'EHLO a b', b'HELO two words'])] + rc
         txs.append({'mail': H(mail), 'rcpts': [H(r) for r in rc], 'payload': {'hex': H(payload)}, 'cuts': cuts,
                     'greet': H(b'RSET') if txs else None, 'tag': kind + '/' + cmode})
     return {'world': w, 'pre': [H(p) for p in pre], 'txs': txs}
